@@ -411,6 +411,11 @@ Definition sx_event (st : pst) (e : sx) : option event :=
   | SL [SN 5%Z; SB a; SN k] => match find_sid st a k with Some s => Some (EServerClose s) | None => None end
   | SL [SN 6%Z] => Some ETimeout
   | SL [SN 7%Z; SB a] => Some (EProbe a)
+  | SL [SN 10%Z; SL chs] =>
+      match map_opt (fun c => match c with SL [SB q; SB a] => Some (q, a) | _ => None end) chs with
+      | Some l => Some (EChoices l)
+      | None => None
+      end
   | SL [SN 9%Z; SL nodes; SL ranges] =>
       match map_opt (fun n => match n with SL [SB a; SN r] => Some (a, negb (Z.eqb r 0)) | _ => None end) nodes,
             map_opt (fun r => match r with SL [SN lo; SN hi; SB a] => Some (lo, hi, a) | _ => None end) ranges with
@@ -469,15 +474,26 @@ Fixpoint run_loop (st : pst) (evs : list sx) : list sx :=
       end
   end.
 
+(* input: ( (limit password timeout max_active ...) ((addr dialable [is_replica]) ...)
+            ((lo hi master [(replica ...)]) ...) (events ...) ); replica lists in the ranges switch
+   replica reads on (suite replicas) *)
 Definition e_loop (a : sx) : sx :=
   match a with
   | SL [SL (SN limit :: SB pw :: SN tmo :: SN maxa :: _); SL pls; SL sls; SL evs] =>
-      match map_opt (fun p => match p with SL [SB a; SN d] =>
+      match map_opt (fun p => match p with
+                              | SL [SB a; SN d] =>
                                 Some {| pp_addr := a; pp_slave := false; pp_conns := []; pp_closed := false; pp_dialable := negb (Z.eqb d 0) |}
+                              | SL [SB a; SN d; SN sl] =>
+                                Some {| pp_addr := a; pp_slave := negb (Z.eqb sl 0); pp_conns := []; pp_closed := false; pp_dialable := negb (Z.eqb d 0) |}
                               | _ => None end) pls,
-            map_opt (fun r => match r with SL [SN lo; SN hi; SB a] => Some (lo, hi, a) | _ => None end) sls with
+            map_opt (fun r => match r with SL (SN lo :: SN hi :: SB a :: _) => Some (lo, hi, a) | _ => None end) sls with
       | Some ps, Some ss =>
-          SL (run_loop (init_state {| cf_limit := limit; cf_password := pw; cf_timeout := negb (Z.eqb tmo 0); cf_max_active := Z.to_nat maxa |} ps ss) evs)
+          let reps := concat (map (fun r => match r with
+                                            | SL [_; _; SB m; SL rs] => [(m, concat (map (fun x => match x with SB ra => [ra] | _ => [] end) rs))]
+                                            | _ => [] end) sls) in
+          let c := {| cf_limit := limit; cf_password := pw; cf_timeout := negb (Z.eqb tmo 0); cf_max_active := Z.to_nat maxa;
+                      cf_replica_reads := match reps with [] => false | _ => true end; cf_reps := reps |} in
+          SL (run_loop (init_state c ps ss) evs)
       | _, _ => bad
       end
   | _ => bad
